@@ -14,7 +14,7 @@ from harness.props.c01 import Recorder, bits
 
 TOL = 1e-12            # the selectors' `tolerance` default (also rcond of pcovr_covariance)
 FAMILIES = ["int_uniform", "int_small", "int_orth", "int_scaled", "float_uniform", "float_normal",
-            "int_lowrank_plus"]
+            "int_lowrank_plus", "int_big", "float_big"]
 MIXINGS = [0.0, 0.25, 0.5, 0.75, 1.0, 0.1, 0.9]
 
 
@@ -43,6 +43,10 @@ def gen_matrix(rng, n, d, fam):
                  for j in range(d)] for i in range(n)]
     if fam == "float_uniform":
         return [[rng.uniform(-4, 4) for _ in range(d)] for _ in range(n)]
+    if fam == "int_big":         # ordinary unscaled data: entries of order 1e4
+        return [[float(10000 * rng.randint(-8, 8)) for _ in range(d)] for _ in range(n)]
+    if fam == "float_big":
+        return [[rng.uniform(-4e4, 4e4) for _ in range(d)] for _ in range(n)]
     if fam == "float_normal":
         return [[rng.gauss(0, 1) * (1 + 3 * (j == 0)) for j in range(d)] for _ in range(n)]
     raise ValueError(fam)
@@ -369,6 +373,26 @@ def refresh_hints(case, sel, t, hints, rcond=1e-12):
     return dict(V=V, lam=lam, UC=UC, vC=vC, M=M)
 
 
+KEY_F28 = "warm start re-orthogonalises by rounding noise: absolute tolerance guard on large-valued X"
+
+
+def abs_guard_fires(case, sel):
+    """True when, at a warm start, the residual of an already selected item exceeds the ABSOLUTE
+    tolerance although it is negligible relative to the item (finding F28: the unrepaired guard of
+    _continue_greedy_search then re-orthogonalises by normalised rounding noise)."""
+    if case["re"] == 0 or len(case["stages"]) < 2:
+        return False
+    X = np.array(case["X"], dtype=float)
+    t = case["stages"][0]
+    Xt = m_resid(X, sel[:t], case["axis"], case["re"])
+    for c in sel[:t]:
+        a = np.linalg.norm(np.take(Xt, [c], axis=case["axis"]))
+        b = np.linalg.norm(np.take(X, [c], axis=case["axis"]))
+        if a > TOL and a <= TOL * b:
+            return True
+    return False
+
+
 # ----------------------------------------------------------------------------- Coq text
 class Interner:
     def __init__(self):
@@ -414,8 +438,8 @@ def case_coq(case, res, I):
     if len(ev) == len(refresh):
         for (t, warm), piobs in zip(ev, refresh):
             h = refresh_hints(case, sel, t, hints)
-            rtxt.append("(mk_refresh %d %s %s %s %s %s)" % (
-                t, I.mat(h["V"]), I.col(h["lam"]), I.mat(h["UC"]), I.col(h["vC"]), I.col(piobs)))
+            rtxt.append("(mk_refresh %d %s %s %s %s %s %s)" % (
+                t, "true" if warm else "false", I.mat(h["V"]), I.col(h["lam"]), I.mat(h["UC"]), I.col(h["vC"]), I.col(piobs)))
     if pcov and axis == 1:
         yf = "[" + "; ".join("(%d%%nat, %s)" % (K, I.mat(V)) for K, V in hints) + "]"
         ys = "[]"
